@@ -30,7 +30,15 @@ func init() {
 type c22Backend struct {
 	mu      sync.Mutex
 	assoc   *socks5.UDPAssociation
-	relayed [][]byte
+	relayed [][]byte      // one record per relayed datagram: rawAddr | port(2) | payload
+	held    chan struct{} // non-nil: RelayUDPDatagram blocks until it is closed (a stalled mesh link)
+}
+
+// c22Record is what identifies a relayed datagram: destination address bytes, port, payload.
+func c22Record(rawAddr []byte, port uint16, data []byte) []byte {
+	r := append([]byte{}, rawAddr...)
+	r = append(r, byte(port>>8), byte(port))
+	return append(r, data...)
 }
 
 func (b *c22Backend) CreateUDPAssociation(ctx context.Context, clientAddr *net.UDPAddr) (uint64, error) {
@@ -42,10 +50,27 @@ func (b *c22Backend) SetSOCKS5UDPAssociation(streamID uint64, assoc *socks5.UDPA
 	b.mu.Unlock()
 }
 func (b *c22Backend) RelayUDPDatagram(streamID uint64, destAddr net.Addr, destPort uint16, addrType byte, rawAddr []byte, data []byte) error {
+	// like a real mesh path, take the bytes on entry (encrypt), then possibly stall on the link
+	rec := c22Record(rawAddr, destPort, data)
 	b.mu.Lock()
-	b.relayed = append(b.relayed, append([]byte{}, data...))
+	held := b.held
+	b.mu.Unlock()
+	if held != nil {
+		<-held
+	}
+	b.mu.Lock()
+	b.relayed = append(b.relayed, rec)
 	b.mu.Unlock()
 	return nil
+}
+
+func (b *c22Backend) release() {
+	b.mu.Lock()
+	if b.held != nil {
+		close(b.held)
+		b.held = nil
+	}
+	b.mu.Unlock()
 }
 func (b *c22Backend) CloseUDPAssociation(streamID uint64) {}
 func (b *c22Backend) IsUDPEnabled() bool                  { return true }
@@ -58,11 +83,23 @@ type c22World struct {
 	barrier *net.UDPConn
 	relay   *net.UDPAddr
 	seq     int
+	sent    map[string]string // record -> "<sender>.<seq>" for every datagram sent in this case
+	mark    int               // len(relayed) when the back-end was put on hold
+	broken  bool              // a wait timed out: the rest of the case is skipped
 }
+
+// c22Timeouts counts waits that hit their deadline; after a few the engine stops waiting at all
+// (a tree on which the synchronisation cannot settle must not cost the whole time budget).
+var c22Timeouts int
+
+const c22WaitBudget = 5 * time.Second
 
 var c22W *c22World
 
 func (w *c22World) close() {
+	if w.be != nil {
+		w.be.release()
+	}
 	if w.ctrl != nil {
 		w.ctrl.Close()
 	}
@@ -79,7 +116,7 @@ func (w *c22World) close() {
 	}
 	// the handler closes the association when the control connection ends
 	if w.be != nil && w.be.assoc != nil {
-		for i := 0; i < 2000 && !w.be.assoc.IsClosed(); i++ {
+		for dl := time.Now().Add(time.Second); time.Now().Before(dl) && !w.be.assoc.IsClosed(); {
 			time.Sleep(500 * time.Microsecond)
 		}
 	}
@@ -97,7 +134,7 @@ func c22Reset(ctrl, decl string) string {
 		c22W.close()
 		c22W = nil
 	}
-	w := &c22World{be: &c22Backend{}}
+	w := &c22World{be: &c22Backend{}, sent: map[string]string{}}
 	for k := 1; k <= 4; k++ {
 		s, err := net.ListenUDP("udp4", &net.UDPAddr{IP: c22SenderIP(k)})
 		must(err)
@@ -149,6 +186,9 @@ func c22Reset(ctrl, decl string) string {
 	case len(decl) == 2 && decl[1] == 'x':
 		k := int(decl[0] - '0')
 		addr, port = append([]byte{1}, c22SenderIP(k)...), 9
+	case len(decl) == 2 && decl[1] == 'z':
+		k := int(decl[0] - '0')
+		addr, port = append([]byte{1}, c22SenderIP(k)...), 0
 	case len(decl) == 2 && decl[0] == 'm':
 		k := int(decl[1] - '0')
 		addr, port = append([]byte{4, 0, 0, 0, 0, 0, 0, 0, 0, 0, 0, 0xff, 0xff}, c22SenderIP(k)...), portOf(k)
@@ -173,7 +213,7 @@ func c22Reset(ctrl, decl string) string {
 		return fmt.Sprintf("err associate %d", rep[1])
 	}
 	w.relay = &net.UDPAddr{IP: net.IPv4(127, 0, 0, 1), Port: int(rep[8])<<8 | int(rep[9])}
-	for i := 0; i < 2000; i++ { // SetSOCKS5UDPAssociation happens before the reply; be safe
+	for dl := time.Now().Add(time.Second); time.Now().Before(dl); { // SetSOCKS5UDPAssociation happens before the reply; be safe
 		w.be.mu.Lock()
 		a := w.be.assoc
 		w.be.mu.Unlock()
@@ -189,7 +229,9 @@ func c22Reset(ctrl, decl string) string {
 		return "err relay-port"
 	}
 	c22W = w
-	c22Quiesce(w)
+	if !c22Quiesce(w) {
+		return "timeout quiesce"
+	}
 	return "ok"
 }
 
@@ -206,46 +248,83 @@ func c22Pending(c *net.UDPConn) int {
 	return int(n)
 }
 
-// c22LoopIdle: every ReadLoop goroutine is parked in the network poller (blocked in ReadFromUDP).
-func c22LoopIdle() bool {
-	buf := make([]byte, 1<<20)
-	buf = buf[:runtime.Stack(buf, true)]
-	found := false
-	for _, g := range bytes.Split(buf, []byte("\n\n")) {
-		if bytes.Contains(g, []byte("socks5.(*UDPAssociation).ReadLoop")) {
-			found = true
-			head, _, _ := bytes.Cut(g, []byte("\n"))
-			if !bytes.Contains(head, []byte("[IO wait")) {
-				return false
+// c22Busy: some goroutine executing internal/socks5 code (the read loop, any worker it hands
+// datagrams to, the back-end call made from them) is not parked — it is running, runnable or in a
+// system call, i.e. the relay machinery is not at rest. A parked goroutine (poller, channel, select,
+// lock) has runtime.gopark as its innermost frame. The goroutine profile is used rather than a
+// runtime.Stack dump: it tolerates frames it cannot unwind (a full dump can crash the process on
+// them) and is cheap.
+var c22Recs = make([]runtime.StackRecord, 256)
+
+func c22Busy() bool {
+	n, ok := runtime.GoroutineProfile(c22Recs)
+	for !ok {
+		c22Recs = make([]runtime.StackRecord, 2*n+64)
+		n, ok = runtime.GoroutineProfile(c22Recs)
+	}
+	for _, rec := range c22Recs[:n] {
+		pcs := rec.Stack()
+		if len(pcs) == 0 {
+			continue
+		}
+		frames := runtime.CallersFrames(pcs)
+		top, inSocks := "", false
+		for {
+			fr, more := frames.Next()
+			if top == "" {
+				top = fr.Function
+			}
+			if strings.Contains(fr.Function, "internal/socks5.") {
+				inSocks = true
+			}
+			if !more {
+				break
 			}
 		}
+		if inSocks && top != "runtime.gopark" {
+			return true
+		}
 	}
-	return found
+	return false
 }
 
-// c22Quiesce waits until the relay socket's queue is empty and ReadLoop is blocked reading again,
-// i.e. every datagram delivered so far has been fully processed.
-func c22Quiesce(w *c22World) {
+// c22Quiesce waits (at most c22WaitBudget) until the relay socket's queue is empty and the relay
+// machinery is at rest, i.e. every datagram delivered so far has been fully processed — or is
+// parked behind a back-end that the script holds. false = the deadline passed.
+func c22Quiesce(w *c22World) bool {
+	if c22Timeouts >= 4 {
+		w.broken = true
+		return false
+	}
 	stable := 0
-	for i := 0; i < 40000 && stable < 3; i++ {
-		if c22Pending(w.be.assoc.UDPConn) == 0 && c22LoopIdle() {
+	held := func() bool { w.be.mu.Lock(); defer w.be.mu.Unlock(); return w.be.held != nil }
+	for dl := time.Now().Add(c22WaitBudget); time.Now().Before(dl); {
+		// while the back-end is held a synchronous read loop cannot drain the socket: rest is enough
+		if (held() || c22Pending(w.be.assoc.UDPConn) == 0) && !c22Busy() {
 			stable++
+			if stable >= 3 {
+				return true
+			}
 		} else {
 			stable = 0
 		}
-		time.Sleep(200 * time.Microsecond)
+		time.Sleep(100 * time.Microsecond)
 	}
-	if stable < 3 {
-		panic("relay loop did not become idle")
-	}
+	c22Timeouts++
+	w.broken = true
+	return false
 }
 
 func c22Send(w *c22World, k int, valid bool) string {
 	w.seq++
-	tag := []byte(fmt.Sprintf("dg%04d", w.seq))
+	tag := []byte(fmt.Sprintf("dg%04d-from-%d", w.seq, k))
+	dst := []byte{10, byte(k), byte(w.seq >> 8), byte(w.seq)} // a destination unique to this datagram
+	port := uint16(5000 + w.seq)
 	var dg []byte
 	if valid {
-		dg = append([]byte{0, 0, 0, 1, 10, 1, 2, 3, 0, 53}, tag...)
+		dg = append(append([]byte{0, 0, 0, 1}, dst...), byte(port>>8), byte(port))
+		dg = append(dg, tag...)
+		w.sent[string(c22Record(dst, port, tag))] = fmt.Sprintf("%d.%d", k, w.seq)
 	} else if w.seq%2 == 0 {
 		dg = append([]byte{0, 0, 1, 1, 10, 1, 2, 3, 0, 53}, tag...) // fragmented: refused
 	} else {
@@ -253,6 +332,7 @@ func c22Send(w *c22World, k int, valid bool) string {
 	}
 	w.be.mu.Lock()
 	before := len(w.be.relayed)
+	held := w.be.held != nil
 	w.be.mu.Unlock()
 	s := w.senders[k]
 	_, err := s.WriteToUDP(dg, w.relay)
@@ -261,24 +341,60 @@ func c22Send(w *c22World, k int, valid bool) string {
 	// in order, so once it has arrived the first one is in the relay socket's queue
 	_, err = s.WriteToUDP([]byte("barrier"), w.barrier.LocalAddr().(*net.UDPAddr))
 	must(err)
-	w.barrier.SetReadDeadline(time.Now().Add(3 * time.Second))
+	w.barrier.SetReadDeadline(time.Now().Add(c22WaitBudget))
 	bb := make([]byte, 16)
 	if _, _, err := w.barrier.ReadFromUDP(bb); err != nil {
-		panic("barrier datagram lost: " + err.Error())
+		c22Timeouts++
+		w.broken = true
+		return "timeout barrier"
 	}
-	c22Quiesce(w)
+	if !c22Quiesce(w) {
+		return "timeout quiesce"
+	}
+	if held {
+		return "queued"
+	}
 	w.be.mu.Lock()
 	defer w.be.mu.Unlock()
 	switch len(w.be.relayed) - before {
 	case 0:
 		return "dropped"
 	case 1:
-		if valid && bytes.Equal(w.be.relayed[before], tag) {
+		if w.sent[string(w.be.relayed[before])] == fmt.Sprintf("%d.%d", k, w.seq) {
 			return "relayed"
 		}
 		return "relayed-garbled"
 	}
 	return "relayed-many"
+}
+
+// c22Release lets the stalled back-end go and reports, in order, what was relayed since `hold`:
+// "<sender>.<seq>" for bytes (destination and payload) exactly as that sender sent them in this
+// case, "x" for bytes nobody sent.
+func c22Release(w *c22World) string {
+	w.be.mu.Lock()
+	if w.be.held == nil { // nothing was held: nothing to report
+		w.mark = len(w.be.relayed)
+	}
+	w.be.mu.Unlock()
+	w.be.release()
+	if !c22Quiesce(w) {
+		return "timeout quiesce"
+	}
+	w.be.mu.Lock()
+	defer w.be.mu.Unlock()
+	var out []string
+	for _, rec := range w.be.relayed[w.mark:] {
+		if id, ok := w.sent[string(rec)]; ok {
+			out = append(out, id)
+		} else {
+			out = append(out, "x")
+		}
+	}
+	if len(out) == 0 {
+		return "relayed -"
+	}
+	return "relayed " + strings.Join(out, ",")
 }
 
 func c22Reply(w *c22World) string {
@@ -327,7 +443,20 @@ func c22Run(line string) string {
 	if c22W == nil {
 		return "err no-case"
 	}
+	if c22W.broken {
+		return "timeout skipped"
+	}
 	switch {
+	case f[0] == "hold":
+		c22W.be.mu.Lock()
+		if c22W.be.held == nil {
+			c22W.be.held = make(chan struct{})
+		}
+		c22W.mark = len(c22W.be.relayed)
+		c22W.be.mu.Unlock()
+		return "ok"
+	case f[0] == "release":
+		return c22Release(c22W)
 	case f[0] == "send" && len(f) == 3:
 		return c22Send(c22W, int(f[1][0]-'0'), f[2] == "v")
 	case f[0] == "reply":
@@ -341,7 +470,7 @@ func c22Run(line string) string {
 func c22Gen(w *bufio.Writer, seed int64, tier string) {
 	r := newRng(seed)
 	ctrls := []string{"t1", "t1", "t2", "t3", "p"}
-	decls := []string{"u", "u", "u6", "d", "1", "2", "3", "4", "1x", "2x", "m1", "m2"}
+	decls := []string{"u", "u", "u6", "d", "1", "2", "3", "4", "1x", "2x", "m1", "m2", "1z", "2z", "3z"}
 	emitCase := func(ctrl, decl string, sends []string) {
 		fmt.Fprintf(w, "reset %s %s\n", ctrl, decl)
 		fmt.Fprintf(w, "reply\n")
@@ -355,7 +484,7 @@ func c22Gen(w *bufio.Writer, seed int64, tier string) {
 	}
 	// exhaustive part: every control kind x undeclared/declared x every ordered pair of first senders
 	for _, ctrl := range []string{"t1", "t2", "p"} {
-		for _, decl := range []string{"u", "1", "2"} {
+		for _, decl := range []string{"u", "1", "2", "1z"} {
 			for a := 1; a <= 4; a++ {
 				for b := 1; b <= 4; b++ {
 					if tier != "thorough" && (a*4+b+int(seed))%3 != 0 {
@@ -364,6 +493,43 @@ func c22Gen(w *bufio.Writer, seed int64, tier string) {
 					emitCase(ctrl, decl, []string{fmt.Sprintf("%d v", a), fmt.Sprintf("%d v", b), "1 v", "2 v"})
 				}
 			}
+		}
+	}
+	// stalled mesh link: the back-end is held while several client datagrams and foreign ones
+	// arrive, then released; everything relayed must be, in order, what the owner sent
+	nh := 25
+	if tier == "thorough" {
+		nh = 400
+	}
+	for i := 0; i < nh; i++ {
+		ctrl := r.pickS("t1", "t1", "t2", "p")
+		decl := r.pickS("u", "u", "1", "2", "d")
+		fmt.Fprintf(w, "reset %s %s\n", ctrl, decl)
+		own := 1
+		if ctrl == "t2" || (ctrl == "p" && decl == "2") {
+			own = 2
+		}
+		if r.chance(50) {
+			fmt.Fprintf(w, "send %d v\n", own)
+		}
+		fmt.Fprintf(w, "hold\n")
+		k := 3 + r.intn(6)
+		if r.chance(10) {
+			k = 70 + r.intn(20) // more than any plausible internal queue
+		}
+		for j := 0; j < k; j++ {
+			switch x := r.intn(10); {
+			case x < 6:
+				fmt.Fprintf(w, "send %d v\n", own)
+			case x < 9:
+				fmt.Fprintf(w, "send %d %s\n", 1+r.intn(4), r.pickS("v", "v", "i"))
+			default:
+				fmt.Fprintf(w, "send %d i\n", own)
+			}
+		}
+		fmt.Fprintf(w, "release\nreply\nsend %d v\n", own)
+		if r.chance(30) {
+			fmt.Fprintf(w, "hold\nsend %d v\nsend %d v\nsend 3 v\nsend %d v\nrelease\n", own, own, own)
 		}
 	}
 	n := 40
